@@ -199,6 +199,20 @@ impl Encoder for Codec {
     type Error = EncodeError;
 
     fn encodev(&self, item: Self::Item, dst: &mut BytePages) -> Result<(), EncodeError> {
+        let start = dst.len();
+        let result = self.encode_item(item, dst);
+        if result.is_err() && dst.len() > start {
+            // failed encode must not leave a partial packet behind
+            let mut keep = dst.split_to(start);
+            dst.clear();
+            keep.move_to(dst);
+        }
+        result
+    }
+}
+
+impl Codec {
+    fn encode_item(&self, item: Encoded, dst: &mut BytePages) -> Result<(), EncodeError> {
         match item {
             Encoded::Packet(pkt) => {
                 let content_size = encode::get_encoded_size(&pkt);
